@@ -306,7 +306,7 @@ def compare_legs(run, tmp):
         while src.w < 10 or src.h < 10 or src.px == ref.px:
             src, ref = rasters.pair_geometry(rng, 'dyadic', 'auto', max_src=22, margin=(1, 2))
         nb = rng.choice([1, 2, 3])
-        if i % 5 == 1 and (i // 5) % 2 == 0:
+        if i % 5 == 1:
             nb = rng.choice([2, 3, 4])      # fuse --compare with band selections needs several bands
         s = np.array([[[rng.randint(20, 200) for _ in range(src.w)] for _ in range(src.h)] for _ in range(nb)], float)
         r = np.array([[[rng.randint(30, 150) for _ in range(ref.w)] for _ in range(ref.h)] for _ in range(nb)], float)
@@ -383,11 +383,31 @@ def compare_legs(run, tmp):
                     args += ['-cb', str(b)]
                 args += ['-f']
                 case['bands'] = dict(src=fsb, ref=frb, cmp=fcb)
+            second = None
+            if kind == 'fuse-flag' and nb > 1 and (i // 5) % 2 == 1:
+                # two sources in one call, a source band selection, and the chained comparison: every source is compared over the
+                # selected bands, every corrected image over all of its bands
+                import shutil as _sh
+                second = d / 'second_src.tif'
+                _sh.copy(pair.src_path, second)
+                kk = rng.randint(1, nb - 1)
+                fsb = sorted(rng.sample(range(1, nb + 1), kk))
+                frb = fsb
+                args = args[:2] + [str(second)] + args[2:]
+                for b in fsb:
+                    args += ['-sb', str(b)]
+                for b in frb:
+                    args += ['-rb', str(b)]
+                args += ['-f']
+                fcb = frb
+                case['bands'] = dict(src=fsb, ref=frb, two_sources=True)
             args += ['--compare'] + ([str(other)] if kind == 'fuse-file' else [])
             if kind != 'fuse-file':
                 # `--compare` without a value must not swallow the next token: keep it last
                 pass
             expect = [dict(src=str(pair.src_path), ref=str(cmp_ref), sb=fsb, rb=fcb, force=bool(fsb)), None]
+            if second is not None:
+                expect += [dict(src=str(second), ref=str(cmp_ref), sb=fsb, rb=fcb, force=True), None]
         del calls[:]
         RasterCompare.process, RasterCompare.__init__ = rec_process, rec_init
         try:
@@ -405,8 +425,11 @@ def compare_legs(run, tmp):
                      signature=dict(kind='cli-error'))
             continue
         if kind.startswith('fuse'):
-            corr = sorted((d / 'out').glob('*.tif'))
-            expect[1] = dict(src=str(corr[0]) if corr else None, ref=expect[0]['ref'], sb=None, rb=expect[0]['rb'], force=expect[0]['force'])
+            corr = sorted(p_ for p_ in (d / 'out').glob('*.tif') if 'PARAM' not in p_.name)
+            by_stem = {p_.name.split('_FUSE_')[0]: p_ for p_ in corr}
+            for q in range(0, len(expect), 2):
+                cp = by_stem.get(pathlib.Path(expect[q]['src']).stem)
+                expect[q + 1] = dict(src=str(cp) if cp else None, ref=expect[q]['ref'], sb=None, rb=expect[q]['rb'], force=expect[q]['force'])
         if len(calls) != len(expect):
             run.fail(case, f'the command made {len(calls)} comparisons, expected {len(expect)}', signature=dict(kind='cli-compare'))
             continue
